@@ -4,6 +4,8 @@ D: TcpFraming machine satisfies the C17_* requirements under every schedule (TLC
    safety + liveness under a fair socket).
 R: Gen_TcpFraming enumerates complete schedules with the prescribed outcome; the real
    hickory_net::tcp::TcpStream is stepped through each over a scripted socket.
+   A subset of the schedules is replayed a second and third time through the wrappers the
+   client (TcpClientStream) and the server (TimeoutStream) put around the stream.
 T: the socket-call / yield events of those runs and of seeded random runs are validated
    against the requirement-level monitor Trace_TcpFraming.
 """
@@ -33,6 +35,7 @@ GEN_QUICK = [
     ("<<256, 1>>", "<<>>", EDGE, "{Never, 1, 2, 257, 258, 259, 260, 261}", 1, 2),
     ("<<>>", "<<300, 2>>", EDGE, "{Never}", 1, 3),
 ]
+WRAPPED = {0, 3, 4}   # generators whose schedules are also replayed through the wrappers
 GEN_THOROUGH = GEN_QUICK + [
     ("<<1, 2, 3>>", "<<>>", "1..5", "G_CloseSet", 2, 99),
     ("<<>>", "<<1, 2, 3>>", "1..5", "{Never}", 2, 99),
@@ -74,6 +77,23 @@ def run(res, tier, seed):
         vpath = os.path.join(wd, f"{name}.verdicts.ndjson")
         vlib.run_driver("drive_tcp", ["replay", "--trace", tpath], stdin_path=cpath, stdout_path=vpath)
         traces.append(tpath)
+        # the same schedules through the wrappers the client and the server put around the stream
+        # (TcpClientStream; TimeoutStream with a timeout that never fires on the paused clock)
+        wrapped_verdicts = []
+        if gi in WRAPPED:
+            for wrap in ("client", "timeout"):
+                wt = os.path.join(wd, f"{name}.{wrap}.trace.ndjson")
+                wv = os.path.join(wd, f"{name}.{wrap}.verdicts.ndjson")
+                vlib.run_driver("drive_tcp", ["replay", "--trace", wt], stdin_path=cpath, stdout_path=wv, env={"VERIF_TCP_WRAP": wrap})
+                traces.append(wt)
+                wrapped_verdicts.append((wrap, wv))
+        for wrap, wv in wrapped_verdicts:
+            for v in vlib.read_ndjson(wv):
+                res.evaluations += 1
+                res.traces += 1
+                if not v["ok"]:
+                    res.mismatch("replay-outcome-differs", {"in_lens": inl, "out_lens": outl, "wrap": wrap},
+                                 {"generator": name, "wrap": wrap, "case": v["input"], "expected": v["expected"], "observed": v["observed"]})
         n = 0
         for v in vlib.read_ndjson(vpath):
             n += 1
